@@ -210,5 +210,17 @@ PROPS["C04"] = {
     "assumptions": [],
 }
 
+
+PROPS["C15"] = {
+    "level": "proof",
+    "technique": "Lean 4 proof (generic NAL-unit round trip for a bitstream-syntax DSL on the proved EBSP writer/reader; AVC SPS with VUI/HRD/scaling lists as a DSL term; picture size = the standard's derivation) + model-vs-parser correspondence on independently serialised SPS + independent-serialiser oracle for all eight syntaxes",
+    "level_text": "PARTIAL in model coverage. Proved (Props/C15.lean): for every syntax expressible in the DSL of Model/BitSyn.lean and every in-range value assignment, the NAL unit written by an independent serialiser (emulation prevention, trailing bits) parses back to exactly those values with no error and every byte accounted for; instantiated for the full AVC SPS syntax as avc/sps.go reads it (Model/AvcSps.lean); the parser's width/height equals the standard's cropping derivation for every valid SPS (and a kernel-checked witness that this fails for value assignments the syntax excludes). Tie: every generated AVC SPS (and truncations of it, for the error path) is parsed by the model and by avc.ParseSPSNALUnit and the complete field records compared. AVC PPS and slice header, HEVC VPS/SPS/PPS/slice header, configuration records, codec strings and sample entries are decided by the direct oracle only: the harness's own bit writer serialises random field values of each syntax (all profiles, scaling lists, poc types, frame/field, cropping, VUI/HRD, sub-layers, short-term RPS incl. inter prediction, extensions, pps id != sps id, several parameter sets per map, all slice types) and every exposed field, the derived size, the slice-header length and the record/codec-string contents are compared.",
+    "level_note": "Trusted: Lean kernel, allowed axioms, hand transcription of avc/sps.go validated by correspondence; the harness's independent serialiser (c15_esgen.go, c15_eshevc.go).",
+    "trusted": ["Model/AvcSps.lean hand transcription of avc/sps.go (ParseSPSNALUnit with full VUI)", "harness serialiser of the ISO/IEC 14496-10 and 23008-2 syntaxes"],
+    "unmodelled": ["AVC PPS (MoreRbspData-dependent tail), AVC slice header, HEVC VPS/SPS/PPS/slice header: direct oracle only", "decoder configuration records, codec strings, Set{AVC,HEVC}Descriptor: direct oracle only"],
+    "partial": ["only the AVC SPS is modelled and proved; the other seven syntaxes are covered by the independent-serialiser oracle"],
+    "assumptions": ["values in range: u(k) fits, ue(v) < 2^32, se(v) within 32 bits"],
+}
+
 # reasons for properties that are not claimed (yet)
 NOT_CLAIMED = {}
